@@ -183,9 +183,13 @@ def check_optimal(ctx, fb):
                 break
     ctx.check(ok and n >= 2, "R07-1", "OptimalMerkleTree::proof", "sibling get_node(depth, i^1), bit 1-((i^1)&1), then i=(i^1)>>1, depth-1, from (index, depth)", why or "found %d step paths" % n, loc(it))
     exits = [p for p in paths if p.kind == "return" and known_ok(eng.value_of(p.store, p.ret)) is not False]
-    guard = all(any(a[0] == "b" and a[1][0] == "bin" and a[1][1] == "Ge" and a[1][2] == P(2) and v is False for a, v in p.conds()) for p in exits)
-    stop = all(any(a[0] == "b" and a[1][0] == "bin" and a[1][1] == "Eq" and cint(a[1][3]) == 0 and a[1][2][0] == "bin" and a[1][2][1] == "Sub" and v is True for a, v in p.conds()) and
-               any(a[0] == "b" and a[1][0] == "bin" and a[1][1] == "Ne" and cint(a[1][3]) == 0 and v is False for a, v in p.conds()) for p in exits)
+    # in any spelling: index < capacity on every success path; the loop is left when depth - 1 == 0; success requires the index to be 0
+    guard = all(any(op == "<" and x == P(2) for op, x, y in cmp_facts(p.conds())) for p in exits)
+
+    def zero_tests(p):
+        return [x for op, x, y in eq_facts(p.conds()) if op == "==" and cint(y) == 0]
+    stop = all(any(isinstance(x, tuple) and x[:2] == ("bin", "Sub") for x in zero_tests(p)) and
+               any(not (isinstance(x, tuple) and x[:2] == ("bin", "Sub")) for x in zero_tests(p)) for p in exits)
     ctx.check(guard and stop and exits, "R07-3", "OptimalMerkleTree::proof bounds", "position >= capacity rejected first; exactly depth steps and the index must have reached 0",
               "proof() is not guarded by `index >= capacity -> Err`, or does not run to depth 0 / require the final index 0", loc(it))
     # compute_root_from
@@ -213,6 +217,27 @@ def check_optimal(ctx, fb):
         a1, _ = arms[False]
         accphi = [s for s in subterms(a0) if s[0] == "phi" and s[4] == P(2)]
         good = bool(accphi) and is_hash_of(a0, accphi[0], F(w, "0")) and is_hash_of(a1, F(w, "0"), accphi[0]) and accphi[0][4] == P(2)
+    else:
+        # the same fold written with Iterator::fold: self.0.iter().fold(*leaf, |acc, w| if w.1 == 0 { H(acc, w.0) } else { H(w.0, acc) })
+        rets = ret_paths(e.run(crf))
+        rv = e.value_of(rets[0].store, rets[0].ret) if len(rets) == 1 else None
+        if isinstance(rv, tuple) and rv and rv[0] == "call" and rv[1].endswith("::fold") and len(rv[2]) == 3 and rv[2][1] == P(2) and isinstance(rv[2][2], tuple) and rv[2][2][0] == "closure":
+            seq = rv[2][0]
+            while isinstance(seq, tuple) and seq and seq[0] == "call" and re.search(r"::(iter|into_iter)$", seq[1]) and seq[2]:
+                seq = seq[2][0]
+            cit = fb.items.get(rv[2][2][1])
+            if seq == F(P(1), "0") and cit is not None:
+                ctx.touch(cit)
+                e9 = Engine(fb, inline=lambda i: False)
+                carms = {}
+                for q in e9.run(cit):
+                    if q.kind != "return":
+                        continue
+                    for op, x, y in eq_facts(q.conds()):
+                        if cint(y) == 0 and x == F(P(3), "1"):
+                            carms[op == "=="] = e9.value_of(q.store, q.ret)
+                good = set(carms) == {True, False} and is_hash_of(carms[True], P(2), F(P(3), "0")) and is_hash_of(carms[False], F(P(3), "0"), P(2))
+                arms = {k: (v, None) for k, v in carms.items()}
     ctx.check(good, "R07-1", "OptimalMerkleProof::compute_root_from", "bit 0: H(acc, sibling); else H(sibling, acc); from the leaf", "recomputation arms %s" % ({k: sh(v[0], 100) for k, v in arms.items()}), loc(crf))
     it2, a = closure_arms(fb, OPT_P + "get_path_index::{closure#0}")
     it3, b = closure_arms(fb, OPT_P + "get_path_elements::{closure#0}")
